@@ -821,6 +821,14 @@ fn replay_line(ctx: &mut Ctx, shrunk: &mut BTreeMap<String, u32>, line: &str) ->
 	let t: Vec<&str> = line.split(' ').collect();
 	let (target, fmt, comp, set) = match t[0] {
 		"C16v" | "C16p" | "C16m" | "C16t" | "C16d" => return c16::replay_reader_line(ctx, "C01", line),
+		"GTR" | "GTW" => {
+			let root = ctx.scratch.fresh("-getters");
+			let a = crate::c01_getters::answer(&ctx.rt, &root, line, &mut None)?;
+			c16::rm(&root);
+			ctx.out.case(line, &a, a != "err");
+			ctx.out.oracle(a != "panic", "C01 getters replay", json!({"kind": "getters"}), json!({"case": line, "answer": a}));
+			return Some(());
+		}
 		"C01x" => (Target::from_name(t.get(1)?)?, Fmt::from_name(t.get(2)?)?, Comp::from_name(t.get(3)?)?, parse_set(t.get(4..)?)?),
 		"C01v" => (Target::V, Fmt::from_vt_code(t.get(1)?.parse().ok()?)?, Comp::from_vt_code(t.get(2)?.parse().ok()?)?, parse_set(t.get(8..)?)?),
 		"C01p" => (Target::P, Fmt::from_pm_type(t.get(1)?.parse().ok()?).unwrap_or(Fmt::Bin), Comp::from_pm_code(t.get(2)?.parse().ok()?)?, parse_set(t.get(11..)?)?),
@@ -914,6 +922,13 @@ pub fn run(args: &Args) {
 			emit_case(&mut ctx, &mut shrunk, Target::D, f, c, &set, kind);
 		}
 		rot += 1;
+	}
+	// getters.rs: dispatch of file names to readers / writers (streams GTR / GTW)
+	if !search_run {
+		let root = ctx.scratch.fresh("-getters");
+		let mut r2 = rng.fork();
+		crate::c01_getters::run(&mut ctx, &mut r2, &root);
+		crate::c16::rm(&root);
 	}
 	// one set with > 16384 tiles in every tier: PMTiles leaf directories (root + leaves layout of the writer)
 	{
